@@ -904,7 +904,7 @@ theorem foldl_dbStore (acc ds : Db) (nd : ((acc ++ ds).map (·.1)).Nodup) :
     database content: same points in the same order, same names, values, kinds and shapes. -/
 theorem readFile_complete (db : Db) (wf : DbWF db) (F : File) (hF : FileOK db F)
     (hall : ∀ i p outs, db[i]? = some (p, outs) → ∃ e, alook i F = some e ∧ EntryComplete db i e) :
-    ∃ d, readFile F = some d ∧ DbEq d db := by
+    ∃ d, readFile F = some d ∧ DbEq d db ∧ DbWF d := by
   -- the file has exactly `db.length` members
   have hlen : F.length = db.length := by
     have h1 : (F.map (·.1)).Subperm (List.range db.length) := by
@@ -928,11 +928,13 @@ theorem readFile_complete (db : Db) (wf : DbWF db) (F : File) (hF : FileOK db F)
   -- choose, for every index, the entry and its decoded outputs
   obtain ⟨cs, hcl, hcs⟩ := exists_list_of_forall db.length
     (fun i (c : FEntry × Outs) => alook i F = some c.1 ∧ decodeEntry c.1 = some c.2 ∧
+      (c.2.map (·.1)).Nodup ∧
       ∃ p outs, db[i]? = some (p, outs) ∧ c.1.x = p ∧ OutsEq c.2 outs)
     (by
       intro i hi
       obtain ⟨e, he, p, outs, L, hget, hx, hlay, ndL, heq⟩ := hall i db[i].1 db[i].2 (by simp [hi])
-      exact ⟨(e, scalPairs L ++ arrPairs L), he, decodeEntry_layout e L hlay ndL, p, outs, hget, hx,
+      exact ⟨(e, scalPairs L ++ arrPairs L), he, decodeEntry_layout e L hlay ndL,
+        ((scal_arr_perm L).map _).nodup_iff.mpr ndL, p, outs, hget, hx,
         fun n => by rw [alook_decoded L ndL n]; exact heq n⟩)
   have h1 : (List.range F.length).map (fun i => alook i F) = (cs.map (·.1)).map some := by
     apply List.ext_getElem (by simp [hlen, hcl])
@@ -951,14 +953,20 @@ theorem readFile_complete (db : Db) (wf : DbWF db) (F : File) (hF : FileOK db F)
     refine ⟨by simp [hcl], ?_⟩
     intro i h1 h2
     have hi : i < cs.length := by simpa using h1
-    obtain ⟨_, _, p, outs, hget, hx, heq⟩ := hcs i hi
+    obtain ⟨_, _, _, p, outs, hget, hx, heq⟩ := hcs i hi
     have hdb : db[i] = (p, outs) := by
       have := List.getElem?_eq_getElem h2
       rw [hget] at this; exact (Option.some.inj this).symm
     simp only [List.get_eq_getElem, List.getElem_map, hdb]
     exact ⟨hx, heq⟩
   have hpts : (cs.map (fun c => (c.1.x, c.2))).map (·.1) = db.map (·.1) := hds.points
-  refine ⟨cs.map (fun c => (c.1.x, c.2)), ?_, hds⟩
+  have hwf : DbWF (cs.map (fun c => (c.1.x, c.2))) := by
+    refine ⟨by rw [hpts]; exact wf.pts, ?_⟩
+    intro po hpo
+    obtain ⟨c, hc, rfl⟩ := List.mem_map.mp hpo
+    obtain ⟨i, hi, rfl⟩ := List.getElem_of_mem hc
+    exact (hcs i hi).2.2.1
+  refine ⟨cs.map (fun c => (c.1.x, c.2)), ?_, hds, hwf⟩
   unfold readFile
   rw [h1, optAll_map_some]
   simp only [h2, optAll_map_some]
